@@ -16,6 +16,7 @@ import PvModel.Proofs.FDLocal
 import PvModel.Proofs.FD
 import PvModel.Model.Goals
 import PvModel.Proofs.FDExact
+import PvModel.Proofs.FDProgram
 namespace Pv
 open Term State
 
@@ -112,6 +113,21 @@ theorem C16_run_constraints_exact {ord : Order} (ho : OrderOK ord) (n : Nat) (st
   runConstraintsF_sem ho n NoI st (iok_noI st) w hi
 
 
+/-- PROGRAMS ON THE ENGINE (soundness): for every constraint program — atoms of the fragment combined by
+    conjunction, `conde` and `fresh`, in any nesting — the interleaving search terminates, and every
+    (unpoisoned) state it delivers describes exactly the solutions of ONE PATH of the program: whatever
+    valuation such a state still describes satisfies every constraint posted along that path. -/
+theorem C16_program_sound {ord : Order} (ho : OrderOK ord) (dfs : Call → State → State × G) (pf M nv : Nat)
+    (p : FProg) (hok : p.OK) :
+    ∃ k ys, drainF (solveAt dfs pf (M + 1)) k (solveAt dfs pf (M + 1) (p.goal ord) (State.empty nv)) = some ys ∧
+      runF (solveAt dfs pf (M + 1)) k (solveAt dfs pf (M + 1) (p.goal ord) (State.empty nv)) = ys ∧
+      ∀ s ∈ ys, s.panic = none → ∃ path ∈ p.paths, ∀ γ, Sem NoI γ s → ∀ a ∈ path, a.Sat γ := by
+  obtain ⟨k, ys, h1, h2, h3, _⟩ := fd_program ho dfs pf M nv p hok
+  exact ⟨k, ys, h1, h2, fun s hs hp => by
+    obtain ⟨path, hpth, hsem⟩ := h3 s hs hp
+    exact ⟨path, hpth, fun γ hγ => (hsem γ).1 hγ⟩⟩
+
+
 section Examples
 /-- D11 witness (`x in 1..=3, plusfd(x,x,x)` has no answer), D12 witness (`x == 1, y == 1, distinctfd([x,y])`)
     and a satisfiable program, decided by the model's state operations -/
@@ -142,6 +158,12 @@ example : ∀ a ∈ prog16, a.OK := by
 example : (match postAllF Order.default (State.empty 3) prog16 with
     | .ok st => st.store.isEmpty && st.dstore.isEmpty && (st.σ 0 == num 1) && (st.σ 1 == num 1) && (st.σ 2 == num 2)
     | _ => false) = true := by decide
+/-- non-vacuity of `C16_program_sound`: a program with a `conde` meets `FProg.OK` and has two paths -/
+private def fprog16 : FProg :=
+  .conj (.atom (.dom (.var 0) (.interval 0 3)))
+    (.alt (.atom (.cst (.ltefd (.var 0) (num 1)))) (.fresh (.atom (.cst (.diseqfd (.var 0) (num 0))))))
+example : fprog16.OK := by simp [fprog16, FProg.OK, FAtom.OK, FD.WF, Cst.isDistinct]
+example : fprog16.paths.length = 2 := by decide
 end Examples
 
 end Pv
